@@ -44,7 +44,8 @@ ASSUMPTIONS = [
 REACH = {t: ["versions_11", "nv3_present", "nv3_absent", "link_keys_written", "children_written", "hashed_present",
              "hashed_absent", "tc_address_unknown", "eui64_rewritten", "eui64_not_writable", "start_blank",
              "start_existing", "several_restores_on_one_ncp", "restore_again_for_the_restored_address", "frame_counter_checked", "children_checked", "security_state_decoded",
-             "link_key_refused_midway", "zero_frame_counter_over_existing_network", "boundary_key_values"]
+             "link_key_refused_midway", "zero_frame_counter_over_existing_network", "boundary_key_values",
+             "start_existing_with_link_keys_and_children_of_its_own"]
          for t in ("quick", "thorough")}
 SHARD_TIMEOUT = {"quick": 900, "thorough": 3600}
 WELL_KNOWN = b"ZigBeeAlliance09"
@@ -74,8 +75,11 @@ def run_shard(desc) -> Acc:
         ap.net.nv3_token = (ncpmodel.NV3_CREATOR_RESTORED_EUI64 if rnd.random() < 0.5 else ncpmodel.NV3_NVM3_RESTORED_EUI64) if nv3 else None
         existing = it % 2 == 1
         if existing:
-            appharness.preformed_network(ap.net)
+            stale = [0, 2, 3][(it // 2) % 3]
+            appharness.preformed_network(ap.net, stale_tables=stale)
             acc.hit("start_existing")
+            if stale:
+                acc.hit("start_existing_with_link_keys_and_children_of_its_own")
         else:
             acc.hit("start_blank")
         case = {"version": V, "nv3": nv3, "iteration": it, "seed": desc["seed"], "start": "existing" if existing else "blank"}
